@@ -52,9 +52,14 @@ type rUse struct {
 
 type rSession struct {
 	Chars     bool     `json:"chars"`
+	Flip      bool     `json:"chars_flips_between_executes"` // Config.Chars alternates from one Execute call to the next
 	ResetVars bool     `json:"reset_vars_between"`
 	Runs      [][]rUse `json:"executes"`
 }
+
+// charsAt is Config.Chars of the r-th Execute call of the session: the configuration belongs to the call, not to the
+// Interpreter, so whatever a call caches about a format must not carry the previous call's mode (seeded C09-s1)
+func (s rSession) charsAt(r int) bool { return s.Chars != (s.Flip && r%2 == 1) }
 
 // needArgs scans a format the way the property reads it: (error class, number of arguments needed)
 func needArgs(f string) (string, int) {
@@ -107,7 +112,7 @@ func (u rUse) expectErr() string {
 func randUseArgs(c *vh.Ctx, n int) []string {
 	var a []string
 	for i := 0; i < n; i++ {
-		a = append(a, pick(c, []string{"5", "-3", "42", "3.75", "0", "abc", "255", "1e3", "12", "7", "x", "65", "-1", "2.5", "100000", ""}))
+		a = append(a, pick(c, []string{"5", "-3", "42", "3.75", "0", "abc", "255", "1e3", "12", "7", "x", "65", "-1", "2.5", "100000", "", "é", "日本", "200", "\xffz", "233"}))
 	}
 	return a
 }
@@ -121,6 +126,9 @@ func c09Repeat(c *vh.Ctx) {
 	var sessions []rSession
 	for si := 0; si < nSessions; si++ {
 		s := rSession{Chars: c.Rng.Intn(6) == 0, ResetVars: c.Rng.Intn(2) == 0}
+		if c.Rng.Intn(4) == 0 {
+			s.Flip, s.Chars = true, c.Rng.Intn(2) == 0
+		}
 		// the formats this session keeps coming back to
 		var pool []string
 		for k := 0; k < 2+c.Rng.Intn(3); k++ {
@@ -184,9 +192,9 @@ func c09Repeat(c *vh.Ctx) {
 	var keys []key
 	var keyUse []rUse
 	for _, s := range sessions {
-		for _, run := range s.Runs {
+		for r, run := range s.Runs {
 			for _, u := range run {
-				k := key{s.Chars, u.record()}
+				k := key{s.charsAt(r), u.record()}
 				if u.Fill != "" {
 					continue
 				}
@@ -283,7 +291,7 @@ func c09Repeat(c *vh.Ctx) {
 				if r > 0 && s.ResetVars {
 					ip.ResetVars()
 				}
-				_, err := ip.Execute(&interp.Config{Stdin: strings.NewReader(in.String()), Output: &buf, Vars: []string{"FS", "\x01"}, Chars: s.Chars, Environ: []string{}})
+				_, err := ip.Execute(&interp.Config{Stdin: strings.NewReader(in.String()), Output: &buf, Vars: []string{"FS", "\x01"}, Chars: s.charsAt(r), Environ: []string{}})
 				if err != nil {
 					ro.err = err.Error()
 				}
@@ -303,6 +311,7 @@ func c09Repeat(c *vh.Ctx) {
 		c.Eval(fmt.Sprint("repeat", si, s), true)
 		c.Hit(fmt.Sprintf("repeat-session:executes=%d", len(s.Runs)))
 		c.Hit("repeat-session:resetvars=" + strconv.FormatBool(s.ResetVars))
+		c.Hit("repeat-session:chars-flips=" + strconv.FormatBool(s.Flip))
 		if nUses > 100 {
 			c.Hit("repeat-session:above-cache-limit")
 		} else {
@@ -328,7 +337,7 @@ func c09Repeat(c *vh.Ctx) {
 					want.WriteString(u.Fill)
 					continue
 				}
-				want.WriteString(fresh[key{s.Chars, u.record()}].Out)
+				want.WriteString(fresh[key{s.charsAt(r), u.record()}].Out)
 			}
 			for f, n := range seen {
 				if n > 1 {
@@ -361,7 +370,7 @@ func c09Repeat(c *vh.Ctx) {
 		var ref []int
 		for si, s := range sessions {
 			parts := []string{"seq", map[bool]string{false: "0", true: "1"}[s.Chars]}
-			ok := len(outs[si]) == len(s.Runs)
+			ok := len(outs[si]) == len(s.Runs) && !s.Flip // the Lean session model has one mode per session; flipping sessions are judged by the fresh-interpreter oracle above
 			for _, run := range s.Runs {
 				for _, u := range run {
 					up := []string{vh.HxS(u.Fmt)}
